@@ -18,6 +18,7 @@
    to the C by the file names generated under every permutation of the file list). *)
 From Coq Require Import List Bool Permutation Ascii ZArith.
 From A1 Require Import Fix.Printer Fix.PrinterProofs Fix.LexValues Fix.NameClash Fix.NameClashProofs Fix.Pullup Fix.PullupProofs.
+From A1 Require Fix.ConstrOps Fix.ConstrOpsProofs Fix.ModuleLookup.
 Import ListNotations.
 
 (* the reference parser inverts the printer on every well-formed module of the algebra
@@ -167,3 +168,99 @@ Theorem C12_pullup_example :
   spec wdemo 3 = Some [Lit 0%Z 100%Z].
 Proof. exact pullup_example. Qed.
 Print Assumptions C12_pullup_example.
+
+(* ---------------------------------------------------------------------------------------------
+   Round 4.  (a) The constraint sub-language with every set operator of asn1c's grammar
+   (Fix/ConstrOps.v; names qualified, the file re-uses names of Fix/Printer.v).  (b) Module identity:
+   which module an IMPORTS clause refers to (Fix/ModuleLookup.v, mirrors asn1f_lookup_module). *)
+
+(* every separated list of the constraint grammar (unions, intersections) is re-read element by element
+   and ends where the separator does not follow; the fuel only has to exceed the number of tokens *)
+Theorem C12_ops_sep_list : forall (pe : ConstrOps.parser ConstrOps.cons) (sepb : ConstrOps.tok -> bool)
+    (sep : ConstrOps.tok) (f : ConstrOps.cons -> list ConstrOps.tok),
+  sepb sep = true ->
+  forall l k rest, l <> [] -> length (ConstrOps.pp_sep sep f l ++ rest) < k ->
+  (forall x r, In x l -> length (f x ++ r) <= length (ConstrOps.pp_sep sep f l ++ rest) ->
+               (r = rest \/ exists r', r = sep :: r') -> pe (f x ++ r) = Some (x, r)) ->
+  ConstrOpsProofs.head_not sepb rest ->
+  ConstrOps.p_sep1 pe sepb k (ConstrOps.pp_sep sep f l ++ rest) = Some (l, rest).
+Proof. exact ConstrOpsProofs.p_sep1_ok. Qed.
+Print Assumptions C12_ops_sep_list.
+
+(* `(ALL EXCEPT a)`, `(ALL EXCEPT (a | b))`, `(ALL EXCEPT a, ...)` are re-read as themselves, for every atom *)
+Theorem C12_ops_aex_roundtrip : forall n m,
+  ConstrOps.parse (ConstrOps.pp false (ConstrOps.CSet [ConstrOps.Aex (ConstrOps.Atom n)]))
+    = Some (ConstrOps.CSet [ConstrOps.Aex (ConstrOps.Atom n)]) /\
+  ConstrOps.parse (ConstrOps.pp false (ConstrOps.CSet [ConstrOps.Aex (ConstrOps.CSet [ConstrOps.Uni [ConstrOps.Atom n; ConstrOps.Atom m]])]))
+    = Some (ConstrOps.CSet [ConstrOps.Aex (ConstrOps.CSet [ConstrOps.Uni [ConstrOps.Atom n; ConstrOps.Atom m]])]) /\
+  ConstrOps.parse (ConstrOps.pp false (ConstrOps.CSet [ConstrOps.Csv [ConstrOps.Aex (ConstrOps.Atom n); ConstrOps.Ext]]))
+    = Some (ConstrOps.CSet [ConstrOps.Csv [ConstrOps.Aex (ConstrOps.Atom n); ConstrOps.Ext]]).
+Proof. exact ConstrOpsProofs.aex_roundtrip. Qed.
+Print Assumptions C12_ops_aex_roundtrip.
+
+(* the printer variant "ALL EXCEPT ( operand )": every printed text is accepted, none is a fixpoint, each
+   round is longer than the one before; the C's own printer keeps the witness fixed *)
+Theorem C12_ops_aex_paren_refuted : exists c c1 c2,
+  ConstrOps.wf_top c = true /\
+  ConstrOps.parse (ConstrOps.pp true c) = Some c1 /\ ConstrOps.parse (ConstrOps.pp true c1) = Some c2 /\
+  c1 <> c /\ c2 <> c1 /\
+  length (ConstrOps.pp true c) < length (ConstrOps.pp true c1) /\
+  length (ConstrOps.pp true c1) < length (ConstrOps.pp true c2) /\
+  ConstrOps.parse (ConstrOps.pp false c) = Some c.
+Proof. exact ConstrOpsProofs.aex_variant_refuted. Qed.
+Print Assumptions C12_ops_aex_paren_refuted.
+
+(* non-vacuity: the directed trees of the check (one per operator and operand position) are well formed and round-trip *)
+Theorem C12_ops_example :
+  forallb (fun c => ConstrOps.wf_top c && match ConstrOps.parse (ConstrOps.pp false c) with Some c' => true | None => false end)
+          ConstrOpsProofs.ex_trees = true /\
+  map (fun c => ConstrOps.parse (ConstrOps.pp false c)) ConstrOpsProofs.ex_trees = map Some ConstrOpsProofs.ex_trees.
+Proof. exact ConstrOpsProofs.ex_trees_roundtrip. Qed.
+Print Assumptions C12_ops_example.
+
+(* an OID is given and the OIDs of the module list are distinct (what the fixer accepts): the module found
+   does not depend on the order of the module files *)
+Theorem C12_lookup_oid_order_independent : forall ms ms' n o,
+  ModuleLookup.oids_distinct ms -> Permutation ms ms' ->
+  ModuleLookup.lookup_c ms n (Some o) = ModuleLookup.lookup_c ms' n (Some o).
+Proof. exact ModuleLookup.lookup_oid_order_independent. Qed.
+Print Assumptions C12_lookup_oid_order_independent.
+
+(* an OID is given: never a module picked by its name; the module that carries the OID is found under any name *)
+Theorem C12_lookup_oid_by_oid_only : forall ms n o,
+  (forall m, ModuleLookup.lookup_c ms n (Some o) = Some m -> In m ms /\ ModuleLookup.m_oid m = Some o) /\
+  (forall m, ModuleLookup.oids_distinct ms -> In m ms -> ModuleLookup.m_oid m = Some o ->
+             ModuleLookup.lookup_c ms n (Some o) = Some m).
+Proof. exact ModuleLookup.lookup_oid_by_oid_only. Qed.
+Print Assumptions C12_lookup_oid_by_oid_only.
+
+Theorem C12_lookup_name_order_independent : forall ms ms' n,
+  ModuleLookup.names_distinct ms -> Permutation ms ms' ->
+  ModuleLookup.lookup_c ms n None = ModuleLookup.lookup_c ms' n None.
+Proof. exact ModuleLookup.lookup_name_order_independent. Qed.
+Print Assumptions C12_lookup_name_order_independent.
+
+(* renaming step + loop *)
+Theorem C12_lookup_full_order_independent : forall imps ms ms' n o,
+  ModuleLookup.oids_distinct ms -> Permutation ms ms' ->
+  (ModuleLookup.effective_oid imps n o = Some None -> ModuleLookup.names_distinct ms) ->
+  ModuleLookup.lookup_full imps ms n o = ModuleLookup.lookup_full imps ms' n o.
+Proof. exact ModuleLookup.lookup_full_order_independent. Qed.
+Print Assumptions C12_lookup_full_order_independent.
+
+(* "the OID matches OR the name matches, first match in command-line order" is order dependent on an accepted
+   module list with distinct OIDs, where the C's rule is not *)
+Theorem C12_lookup_lenient_refuted : exists ms ms' n o,
+  ModuleLookup.accepted_b ms = true /\ ModuleLookup.oids_distinct ms /\ Permutation ms ms' /\
+  ModuleLookup.lookup_lenient ms n (Some o) <> ModuleLookup.lookup_lenient ms' n (Some o) /\
+  ModuleLookup.lookup_c ms n (Some o) = ModuleLookup.lookup_c ms' n (Some o).
+Proof. exact ModuleLookup.lookup_lenient_refuted. Qed.
+Print Assumptions C12_lookup_lenient_refuted.
+
+(* the C's rule asked WITHOUT an OID for a name two accepted editions share: order dependent
+   (finding C12-import-edition-by-order; names_distinct cannot be dropped above) *)
+Theorem C12_lookup_name_shared_refuted : exists ms ms' n,
+  ModuleLookup.accepted_b ms = true /\ Permutation ms ms' /\
+  ModuleLookup.lookup_c ms n None <> ModuleLookup.lookup_c ms' n None.
+Proof. exact ModuleLookup.lookup_name_shared_refuted. Qed.
+Print Assumptions C12_lookup_name_shared_refuted.
